@@ -188,6 +188,11 @@ WantOK(o, q) ==
          [] q.q = "request" ->
               g = One(IF T4(a.rid) \in DOMAIN req /\ a.rid[1] \in DOMAIN ctx
                       THEN DgOf(o.treq, RidKey, T4(a.rid)) ELSE o.empty)
+         [] q.q = "request_by_events" ->
+              \* what an off-chain client recovers from the identifier alone: the stored request, if there is one
+              IF T4(a.rid) \in DOMAIN req /\ a.rid[1] \in DOMAIN ctx
+              THEN g = One(DgOf(o.treq, RidKey, T4(a.rid)))
+              ELSE Len(g) = 1 /\ g[1] \notin {x.dg : x \in RangeOf(o.treq)}
          [] q.q = "response" ->
               g = One(IF T4(a.rid) \in DOMAIN resp THEN DgOf(o.tresp, RidKey, T4(a.rid)) ELSE o.empty)
          [] q.q = "requests" ->
@@ -217,7 +222,9 @@ QueryIdsOK ==
     (ev'.name = "Obs") =>
         \A i \in DOMAIN ev'.obs.queries :
             LET q == ev'.obs.queries[i] IN
-            q.q \in {"requests", "requests_by_ctx"} => (IdsOfListingOK(q, q.rids) /\ IdsOfListingOK(q, q.lrids))
+            /\ q.q \in {"requests", "requests_by_ctx"} => (IdsOfListingOK(q, q.rids) /\ IdsOfListingOK(q, q.lrids))
+            \* a request is found again from its identifier (context, issue height, position in the issue event)
+            /\ q.q = "request_by_events" => WantOK(ev'.obs, q)
 
 \* queries that list bindings (C15's listing clause)
 IsListing(q) == q.q = "bindings"
